@@ -76,6 +76,7 @@ type parent struct {
 	viol         map[string][]evid.Violation // by signature
 	violCount    map[string]int
 	sigConfirmed map[string]bool
+	sigWaiting   map[string][]*pendingVerdict // hangs waiting for the confirmation of their signature
 	aloneInfo    map[string]string
 	totals       [7]int
 }
@@ -104,13 +105,16 @@ func main() {
 		os.Exit(evid.ExitBroken)
 	}
 	p := &parent{run: run, fl: fl, exe: exe, viol: map[string][]evid.Violation{}, violCount: map[string]int{},
-		sigConfirmed: map[string]bool{}, aloneInfo: map[string]string{}}
+		sigConfirmed: map[string]bool{}, sigWaiting: map[string][]*pendingVerdict{}, aloneInfo: map[string]string{}}
 	p.cond = sync.NewCond(&p.mu)
 	p.grouped = map[string]map[string]int64{"class_": {}, "op_": {}, "sigcount:": {}}
 	base := os.Getenv("VERIF_BUILD_DIR")
 	if base != "" {
-		p.workdir = filepath.Join(base, "fuzzmon")
-		_ = os.MkdirAll(p.workdir, 0755)
+		p.workdir = filepath.Join(base, fmt.Sprintf("fuzzmon.work.%d", os.Getpid()))
+		if err := os.MkdirAll(p.workdir, 0755); err != nil {
+			fmt.Println("cannot create work dir:", err)
+			os.Exit(evid.ExitBroken)
+		}
 	} else {
 		p.workdir, err = os.MkdirTemp("", "fuzzmon")
 		if err != nil {
@@ -466,6 +470,7 @@ func (p *parent) handleWatchdog(t *task, r *childResult) {
 			"a concurrent lock probe on the same instance blocked=%v (step %q)", r.last.Op, t.Surface, idx, r.last.Class, r.hang.Timeout,
 			frame, cl.dumps, r.hang.SecondaryBlocked, r.hang.SecondaryStep)
 	}
+	sig = sigSafe(sig)
 	witness := map[string]interface{}{"input": in, "surface": t.Surface, "idx": idx, "op": r.last.Op, "class": r.last.Class,
 		"phase": phase, "probe_step": r.hang.Step, "watchdog": r.hang.Timeout, "classification": cl.verdict,
 		"secondary_lock_probe_blocked": r.hang.SecondaryBlocked, "secondary_lock_probe_step": r.hang.SecondaryStep,
@@ -492,7 +497,19 @@ func (p *parent) handleWatchdog(t *task, r *childResult) {
 		}
 		p.mu.Lock()
 		confirmed := p.sigConfirmed[sig]
+		inFlight := false
+		if pv.wedged && !confirmed {
+			if _, inFlight = p.sigWaiting[sig]; inFlight {
+				// the same shape is being confirmed right now: wait for that verdict instead of re-running again
+				p.sigWaiting[sig] = append(p.sigWaiting[sig], pv)
+			} else {
+				p.sigWaiting[sig] = []*pendingVerdict{}
+			}
+		}
 		p.mu.Unlock()
+		if inFlight {
+			return
+		}
 		if pv.wedged && confirmed {
 			p.addViolation(evid.Violation{Sig: sig, Msg: msg, Witness: witness, Case: pv.caseID}, true)
 			return
@@ -520,12 +537,19 @@ func (p *parent) handleWatchdog(t *task, r *childResult) {
 			p.mu.Lock()
 			p.sigConfirmed[orig.sig] = true
 			p.aloneInfo[orig.sig] = how
+			waiting := p.sigWaiting[orig.sig]
+			delete(p.sigWaiting, orig.sig)
 			p.mu.Unlock()
 			p.addViolation(evid.Violation{Sig: orig.sig, Msg: orig.msg + " (" + how + ")", Witness: orig.witness, Case: orig.caseID}, true)
+			for _, w := range waiting {
+				w.witness["confirmation"] = "same signature confirmed by re-running " + orig.caseID + " alone"
+				p.addViolation(evid.Violation{Sig: w.sig, Msg: w.msg, Witness: w.witness, Case: w.caseID}, true)
+			}
 			return
 		}
 		p.run.Inconclusive(fmt.Sprintf("watchdog fired for %s (%s) but the re-run alone stopped at input %d with classification %q",
 			orig.caseID, orig.sig, idx, cl.verdict))
+		p.dropWaiting(orig)
 	}
 }
 
@@ -544,9 +568,11 @@ func (p *parent) resolvePassed(t *task) {
 			return
 		}
 		p.run.Inconclusive(fmt.Sprintf("hang %s at %s was classified as wedged in galaxy code but did not reproduce alone", pv.sig, pv.caseID))
+		p.dropWaiting(pv)
 	case "confirm-prefix":
 		p.run.Inconclusive(fmt.Sprintf("hang %s at %s was classified as wedged in galaxy code but did not reproduce alone (single input and batch prefix)",
 			pv.sig, pv.caseID))
+		p.dropWaiting(pv)
 	case "rerun-alone":
 		// machine starved the first time; the input is decided by the alone run
 		p.run.Count("hangs_cleared_by_rerun_alone", 1)
@@ -556,6 +582,18 @@ func (p *parent) resolvePassed(t *task) {
 func (p *parent) resolveFailed(t *task, why string) {
 	if t.pending != nil {
 		p.run.Inconclusive(fmt.Sprintf("could not confirm %s at %s: %s", t.pending.sig, t.pending.caseID, why))
+		p.dropWaiting(t.pending)
+	}
+}
+
+// dropWaiting: the confirmation of a signature failed; the hangs that waited for it stay undecided.
+func (p *parent) dropWaiting(pv *pendingVerdict) {
+	p.mu.Lock()
+	n := len(p.sigWaiting[pv.sig])
+	delete(p.sigWaiting, pv.sig)
+	p.mu.Unlock()
+	if n > 0 {
+		p.run.Inconclusive(fmt.Sprintf("%d more hangs with signature %s stay undecided (confirmation failed)", n, pv.sig))
 	}
 }
 
@@ -574,6 +612,7 @@ func (p *parent) handleCrash(t *task, r *childResult) {
 	cr := parseCrash(r.stderr)
 	if t.pending != nil {
 		p.run.Inconclusive(fmt.Sprintf("confirmation of %s at %s crashed instead: %s", t.pending.sig, t.pending.caseID, cr.headline))
+		p.dropWaiting(t.pending)
 		return
 	}
 	if cr.kind == "" {
@@ -593,6 +632,7 @@ func (p *parent) handleCrash(t *task, r *childResult) {
 	default:
 		sig = fmt.Sprintf("fatal-%s-surface%d-%s", cr.fatalClass, t.Surface, shortFunc(cr.topGalaxy))
 	}
+	sig = sigSafe(sig)
 	p.run.Count("panics", 1)
 	p.run.Count("panics_unrecoverable", 1)
 	p.run.Count(fmt.Sprintf("outcome_surface%d_crash", t.Surface), 1)
@@ -602,6 +642,11 @@ func (p *parent) handleCrash(t *task, r *childResult) {
 		"input": r.last.Input, "surface": t.Surface, "idx": idx, "op": r.last.Op, "class": r.last.Class, "journal_phase": r.last.Phase,
 		"crash": cr.headline, "origin_frame": cr.origin, "top_galaxy_frame": cr.topGalaxy, "stack": truncate(cr.stack, 6000),
 		"batch_start": t.Start}}, true)
+}
+
+// sigSafe: signatures are single tokens (known_findings.txt is whitespace separated).
+func sigSafe(s string) string {
+	return strings.Join(strings.Fields(s), "_")
 }
 
 func truncate(s string, n int) string {
